@@ -3,7 +3,7 @@
  "name": "gen32_resize",
  "props": ["C16"],
  "level": "U",
- "tier": "wip",
+ "tier": "quick",
  "harness": "h_g32_resize",
  "enforce": ["ext2fs_resize_generic_bitmap"],
  "loop_contracts": true,
